@@ -48,7 +48,13 @@ structure S1 where
   notified : Bool := false     -- … signalled by put / time-out, has not re-run yet
   pend : Pend := .none
   inflight : List Nat := []    -- seqs taken by get and not yet committed (history)
+  len : Int := 0               -- stream.len, literally: put ++, get -- (also for a time-out event),
+                               -- tryUnblock installs its time-out event WITHOUT touching it
+  tmos : Nat := 0              -- ghost: time-out events taken so far
   deriving DecidableEq, Repr, Inhabited
+
+/-- number of regular (put) events in a queue -/
+def regCount (q : List Ev) : Nat := q.countP (fun e => !e.timeout)
 
 /-- processor (goroutine running processor.process); which stream a busy processor popped / owns is
     recorded in that stream (`popper`, `owner`) — one source of truth -/
@@ -101,14 +107,15 @@ def canJoin (pc : PPc) : Bool := pc == .idle || pc == .woken
 /-! the effect of each step on the stream record it touches -/
 namespace S1
 def put (x : S1) (off seq : Nat) : S1 :=
-  let x' := { x with cur := seq, q := x.q ++ [{ off := off, seq := seq }] }
+  let x' := { x with cur := seq, q := x.q ++ [{ off := off, seq := seq }], len := x.len + 1 }
   if x.q = [] then signalOwner { x' with pend := if x.attached then .none else .charge } else x'
 def charge (x : S1) : S1 := { x with pend := .none }
 def pop (x : S1) (p : Nat) : S1 := { x with popper := some p }
 def attach (x : S1) (p : Nat) : S1 := { x with attached := true, popper := none, owner := some p }
 def get (x : S1) (e : Ev) (rest : List Ev) : S1 :=
   { x with q := rest, away := e.seq, notified := false,
-           inflight := if e.timeout then x.inflight else x.inflight ++ [e.seq] }
+           inflight := if e.timeout then x.inflight else x.inflight ++ [e.seq],
+           len := x.len - 1, tmos := if e.timeout then x.tmos + 1 else x.tmos }
 def leave (x : S1) : S1 :=
   let x' := { x with detaching := true, owner := none }
   { x' with pend := detachDue x' }
